@@ -6,6 +6,8 @@ var scenarios = map[string]func(e *engineA) error{}
 
 func runOther(cfg *RunConfig, rc *Recorder, res *Result) error {
 	switch cfg.Engine {
+	case "B":
+		return runEngineB(cfg, rc, res)
 	case "C":
 		return runEngineC(cfg, rc, res)
 	case "D":
